@@ -9,7 +9,7 @@ COMMON_ASSUMPTIONS = [
 
 NOT_APPLICABLE = {}
 
-HOOK_COMMITS = []
+HOOK_COMMITS = ["1619173"]
 
 CHECKS = {
     "C19": {
